@@ -32,7 +32,7 @@ Put(L, a, r) == [x \in DOMAIN L \cup {a} |-> IF x = a THEN r ELSE L[x]]
 Move(L, a, b, amt) == LET L1 == Put(L, a, [Get(L, a) EXCEPT !.bal = Monus(@, amt)])
                       IN Put(L1, b, [Get(L1, b) EXCEPT !.bal = Plus(@, amt)])
 
-NoShadow == [ran |-> FALSE, ok |-> FALSE, writes |-> {}, keep |-> {}, moved |-> Zero, req |-> <<>>, dest |-> ""]
+NoShadow == [ran |-> FALSE, ok |-> FALSE, writes |-> {}, keep |-> {}, moved |-> Zero, req |-> <<>>, base |-> <<>>, dest |-> ""]
 
 (* tx  = [kind: "deploy"|"call"|"terminate", wasm: BOOLEAN, from, to: names (to = contract address), *)
 (*        amount, maxFee, tips, sizeFee, fpg: amounts]                                            *)
@@ -95,14 +95,19 @@ Explained(pre, post, t, r, e, p) ==
     LET pred == ChargeOp(Settled(pre, t, r, e), t, Charged(pre, post, t, r, e)) IN
     \A a \in (DOMAIN pred \cup DOMAIN post) \ {p} : SameAcct(Get(post, a), Get(pred, a), StoreDetermined(t, r, e))
 
-(* the balance buffer the node applied is the one the contract code asked for (both are absolute *)
-(* values on top of the escrowed pre-state); the stake refund of a termination is the node's own *)
+(* the balance buffer the node applied is the one the contract code asked for.  Both are absolute *)
+(* values; the probe's are relative to the balances IT started from (e.sh.base: committed pre-    *)
+(* state + escrow), which differ from the node's by the charge of an earlier failed transaction   *)
+(* of the same block: the CHANGES must agree.  The stake refund of a termination is the node's own*)
 ReqAgree(pre, t, r, e) ==
     (r.success /\ e.sh.ran /\ e.sh.ok /\ ~t.wasm) =>
-        LET base == EscrowOp(pre, t)
-            val(f, a) == IF a \in DOMAIN f THEN f[a] ELSE Get(base, a).bal
-        IN \A a \in (DOMAIN e.req \cup DOMAIN e.sh.req) \ (IF t.kind = "terminate" THEN {e.sh.dest} ELSE {}) :
-              val(e.req, a) = val(e.sh.req, a)
+        LET base == EscrowOp(pre, t) IN
+        \A a \in (DOMAIN e.req \cup DOMAIN e.sh.req) \ (IF t.kind = "terminate" THEN {e.sh.dest} ELSE {}) :
+            LET nb == Get(base, a).bal                                       \* node: before / after
+                na == IF a \in DOMAIN e.req THEN e.req[a] ELSE nb
+                pb == IF a \in DOMAIN e.sh.req THEN e.sh.base[a] ELSE Zero    \* probe: before / after
+                pa == IF a \in DOMAIN e.sh.req THEN e.sh.req[a] ELSE Zero
+            IN Plus(na, pb) = Plus(pa, nb)
 
 (* a failed run leaves no trace except the sender's nonce, the fee and the tips *)
 FailLeavesNoTrace(pre, post, t, r, e, p) == ~r.success => Explained(pre, post, t, r, e, p)
@@ -301,6 +306,7 @@ Finish(ok, dest) ==
           /\ eff' = [req |-> f.req, burnt |-> f.burnt, term |-> IF term THEN Sub(st, Half(st)) ELSE Zero, deployed |-> f.dep,
                      sh |-> [ran |-> TRUE, ok |-> ok, moved |-> f.moved, keep |-> {}, dest |-> dest,
                              req |-> IF tx.wasm THEN <<>> ELSE f0.req,
+                             base |-> IF tx.wasm THEN <<>> ELSE [a \in DOMAIN f0.req |-> Get(led, a).bal],
                              writes |-> {<<x[1], x[2], f.wr[x]>> : x \in DOMAIN f.wr}]]
           /\ frames' = <<f>>
     /\ shok' = ok
